@@ -47,4 +47,15 @@ CLAIMS["C16"] = dict(
     note=(TRUST + "Not decided: equivalence with a bounded deque over whole histories, capacity preconditions (asserts), exception safety of element constructors."),
 )
 
+CLAIMS["C12"] = dict(
+    level="other",
+    technique="static analysis: path-sensitive effect summaries of every CountingPtr special member over a finite alias/ownership model (abstract interpretation of the instantiated AST with inlined helpers, deleter and temporaries); structural atomic-RMW rules on ReferenceCounter",
+    text=("RC-CONSERVE: for all 15 special members/modifiers (+ make_counting, free swap) and every alias scenario (this in {null,A}, other in "
+          "{null,A,B,same handle}, with/without external owners) the reference count equals the number of handles, the pointee is destroyed "
+          "exactly once and exactly when the last handle goes, never used after destruction, moves null the source, unify clones iff shared. "
+          "RC-ATOMIC-RMW: inc/dec are single atomic RMWs and the release decision is the decrement's own result with order >= acq_rel; "
+          "RC-COPY-ZERO. Sequentially this decides the per-operation obligations completely; the concurrent clause is reduced to the atomic-RMW rule."),
+    note=(TRUST + "Not decided: interleavings as such (argued from the atomicity of the single RMW), user-supplied pointee types that break the inc/dec protocol."),
+)
+
 NOT_APPLICABLE = {}
